@@ -201,7 +201,21 @@ int main(int argc, char **argv) {
   if (main_exits) { if (!fgets(cmd, sizeof cmd, stdin)) return 0; pthread_exit(0); }
   while (fgets(cmd, sizeof cmd, stdin)) {
     unsigned i; if (cmd[0] == 'q') break;
-    if (sscanf(cmd, "x %u", &i) == 1 && i < (unsigned)NT) { T[i].go_exit = 1; pthread_join(T[i].th, 0); printf("EXITED %u\n", i); fflush(stdout); }
+    if (sscanf(cmd, "s %u", &i) == 1) {
+      /* the target grows: i more blocked threads on fresh stacks */
+      int first = NT; printf("SPAWNED");
+      for (unsigned k = 0; k < i && NT < MAXT; k++) {
+        struct tcfg *t = &T[NT]; memset(t, 0, sizeof *t); t->idx = NT; t->kind = K_BLOCK; t->pages = 2; t->sp_off = 0x800;
+        unsigned char *m = mmap(0, 4 * 4096, PROT_READ | PROT_WRITE, MAP_PRIVATE | MAP_ANONYMOUS, -1, 0);
+        for (size_t j = 4096; j < 3 * 4096; j++) m[j] = (unsigned char)(((uintptr_t)(m + j) * 2654435761u) >> 7);
+        munmap(m, 4096); munmap(m + 3 * 4096, 4096);
+        t->sp = (uint64_t)(m + 4096) + 4096 + 0x800;
+        int before = ready; NT++; pthread_create(&t->th, 0, thr, t); while (ready == before) usleep(200);
+      }
+      usleep(20000);
+      for (int k = first; k < NT; k++) printf(" %d:%lx", T[k].tid, (unsigned long)T[k].sp);
+      printf("\n"); fflush(stdout);
+    } else if (sscanf(cmd, "x %u", &i) == 1 && i < (unsigned)NT) { T[i].go_exit = 1; pthread_join(T[i].th, 0); printf("EXITED %u\n", i); fflush(stdout); }
   }
   return 0;
 }
